@@ -105,3 +105,59 @@ def return_deps(prog, p, obj, after_idx=-1):
     if p.ret is None:
         return []
     return _norm_ranges(term_deps(p.ret))
+
+
+def param_deps(prog, p):
+    """which pointer/scalar parameters does each local object and each call result on path p depend on?
+    (coarse forward dependence: a call's outputs depend on everything it may read)"""
+    cg = prog.callgraph()
+    rr = read_ranges(prog)
+    deps = {}
+
+    def term_deps(t):
+        out = set()
+        for l in T.leaves(t):
+            if l[0] == "arg":
+                out.add(l[1])
+            elif l[0] in ("call", "load", "havoc", "alloca"):
+                out |= deps.get(l, set())
+        return out
+
+    for e in p.events:
+        if e.kind == "load":
+            root, _off = ptr_parts(e.addr)
+            d = term_deps(e.addr)
+            if root[0] == "arg":
+                d.add(root[1])
+            else:
+                d |= deps.get(root, set())
+            if e.res is not None:
+                deps[e.res] = deps.get(e.res, set()) | d
+        elif e.kind == "store":
+            root, _off = ptr_parts(e.addr)
+            deps[root] = deps.get(root, set()) | term_deps(e.val)
+        elif e.kind == "call":
+            c = e.callee
+            targets = [c[1]] if c[0] == "fn" else []
+            ins, wr = set(), set()
+            for i, a in enumerate(e.args):
+                root, _off = ptr_parts(a)
+                if root[0] not in ("alloca", "arg", "g"):
+                    ins |= term_deps(a)
+                    continue
+                reads = True
+                writes = True
+                if targets:
+                    reads = any(rr.reads(t, i) for t in targets)
+                    writes = any(i in cg.writes_params(t) for t in targets)
+                if reads:
+                    if root[0] == "arg":
+                        ins.add(root[1])
+                    ins |= deps.get(root, set())
+                if writes:
+                    wr.add(root)
+            for r in wr:
+                deps[r] = deps.get(r, set()) | ins
+            if e.res is not None:
+                deps[e.res] = ins
+    return deps
